@@ -195,7 +195,11 @@ def _function_over_two_vars(repr_func, raw_func, x, y, out=None, out_like=None, 
 
     if method == 'repr' or x.scaled or n_frac is None:
         raw = False
-        val = repr_func(_repr_val(x), _repr_val(y), **kwargs)
+        x_val, y_val = _repr_val(x), _repr_val(y)
+        if x.n_word + y.n_word >= 63 and all(isinstance(v, (np.ndarray, np.generic)) and v.dtype.kind == 'i' for v in (x_val, y_val)):
+            # integer values whose sum or product may leave the 64 bits integers of numpy (which wrap around silently): python integers
+            x_val, y_val = np.asarray(x_val).astype(object), np.asarray(y_val).astype(object)
+        val = repr_func(x_val, y_val, **kwargs)
     elif method == 'raw':
         raw = True
         kwargs['n_frac'] = n_frac
